@@ -1,4 +1,5 @@
 import BbRe.Lemmas.SchedTreePrimQueue
+import BbRe.Lemmas.SchedTreePrimRefresh
 import BbRe.Lemmas.SchedTreePrimCreate
 /-!
 The loops `for o in t.operations { … }` of the tree layer (`TState.incOps`, `decOps`, `enqOps`, `deqOps`,
@@ -85,6 +86,14 @@ theorem incExec_isSome (ns : List Node) (q : ScqId) (p : List Nat) (k : WKey) (n
   rw [updPath_eq_map, node?_map, Option.isSome_map]
   exact keepsKey_ite (fun n => ⟨rfl, rfl⟩)
 
+theorem incExecR_isSome (lg : Bool) (pr : Nat → Int) (ns : List Node) (q : ScqId) (p : List Nat) (k : WKey) (now : Nat)
+    (q' : ScqId) (p' : List Nat) :
+    (node? (incExecR lg pr ns q p k now) q' p').isSome = (node? ns q' p').isSome := by
+  unfold incExecR
+  split
+  · exact incExec_isSome ns q p k now q' p'
+  · rw [refreshUp_isSome]; exact incExec_isSome ns q p k now q' p'
+
 theorem enqueueOp_isSome (prioOf : Nat → Int) (ns : List Node) (q : ScqId) (p : List Nat) (o : Nat) (q' : ScqId) (p' : List Nat) :
     (node? (enqueueOp prioOf ns q p o) q' p').isSome = (node? ns q' p').isSome := by
   apply node?_isSome_of_keys
@@ -124,30 +133,30 @@ theorem filter_offOps_cons_sub (X : List (ScqId × List Nat)) (q : ScqId) (inv :
 
 /-- `for o in ops { incrementExecutingWorkersCount(inv o, k) }`; afterwards no invocation on the path of
 one of the operations is exempt -/
-theorem incOps_ok (h : TreeOK X ns E I Q P) (q : ScqId) (inv : Nat → List Nat) (k : WKey) (now : Nat) (ops : List Nat)
+theorem incOps_ok (h : TreeOK X ns E I Q P) (lg : Bool) (pr : Nat → Int) (q : ScqId) (inv : Nat → List Nat) (k : WKey) (now : Nat) (ops : List Nat)
     (hn : ∀ o ∈ ops, (node? ns q (inv o)).isSome = true) :
     TreeOK (X.filter (fun x => !ops.any (fun o => onPathOf q (inv o) x)))
-      (ops.foldl (fun ns o => incExec ns q (inv o) k now) ns)
+      (ops.foldl (fun ns o => incExecR lg pr ns q (inv o) k now) ns)
       (ops.map (fun o => (q, inv o, k)) ++ E) I Q P := by
   induction ops generalizing X ns E with
   | nil => exact h.exempt_more _ (fun x hx => mem_filter_offOps.mpr ⟨hx, fun o ho => nomatch ho⟩)
   | cons o rest ih =>
-    have h1 := incExec_ok h q (inv o) k now (hn o List.mem_cons_self)
-    have h2 := ih h1 (fun o' ho' => by rw [incExec_isSome]; exact hn o' (List.mem_cons_of_mem _ ho'))
+    have h1 := incExecR_ok h lg pr q (inv o) k now (hn o List.mem_cons_self)
+    have h2 := ih h1 (fun o' ho' => by rw [incExecR_isSome]; exact hn o' (List.mem_cons_of_mem _ ho'))
     rw [List.foldl_cons, List.map_cons, List.cons_append]
     exact (h2.congr List.perm_middle (List.Perm.refl _) (fun _ => Iff.rfl) (fun _ => Iff.rfl)).exempt_more _
       (filter_offOps_cons_sub X q inv o rest)
 
 /-- `for o in ops { decrementExecutingWorkersCount(inv o, k) }` when nothing is exempt -/
-theorem decOps_ok (q : ScqId) (inv : Nat → List Nat) (k : WKey) (now : Nat) (ops : List Nat) :
+theorem decOps_ok (lg : Bool) (pr : Nat → Int) (q : ScqId) (inv : Nat → List Nat) (k : WKey) (now : Nat) (ops : List Nat) :
     ∀ {ns : List Node}, TreeOK [] ns (ops.map (fun o => (q, inv o, k)) ++ E) I Q P →
-      TreeOK [] (ops.foldl (fun ns o => decExec ns q (inv o) k now) ns) E I Q P := by
+      TreeOK [] (ops.foldl (fun ns o => decExecR lg pr ns q (inv o) k now) ns) E I Q P := by
   induction ops with
   | nil => intro ns h; simpa using h
   | cons o rest ih =>
     intro ns h
     rw [List.map_cons, List.cons_append] at h
-    have h1 := decExec_ok h q (inv o) k now List.mem_cons_self (fun x hx => by cases hx)
+    have h1 := decExecR_ok h lg pr q (inv o) k now List.mem_cons_self (fun x hx => by cases hx)
     rw [List.erase_cons_head] at h1
     rw [List.foldl_cons]
     exact ih h1
